@@ -230,7 +230,7 @@ public:
         typename std::enable_if<ext_traits::is_bytes_view_like<BytesViewLike>::value,int>::type = 0) 
     {
         write_tag(raw_tag);
-        write_byte_string(byte_string_view(reinterpret_cast<const uint8_t*>(value.data()),value.size()));
+        write_unreferenced_byte_string(byte_string_view(reinterpret_cast<const uint8_t*>(value.data()),value.size()));
         end_value();
     }
 
@@ -480,6 +480,8 @@ private:
         {
             write_tag(2);
         }
+
+        count_unreferenced_byte_string(length);
 
         if (length <= 0x17)
         {
@@ -1003,6 +1005,23 @@ private:
         sink_.append(b.data(), b.size());
     }
 
+    // A byte string that is never written as a reference (typed array, bignum payload,
+    // explicitly tagged bytes) still takes an index in a decoder's stringref table when it is
+    // long enough: keep the index counter in step.
+    void count_unreferenced_byte_string(std::size_t length)
+    {
+        if (pack_strings_ && length >= jsoncons::cbor::detail::min_length_for_stringref(next_stringref_))
+        {
+            ++next_stringref_;
+        }
+    }
+
+    void write_unreferenced_byte_string(const byte_string_view& b) 
+    {
+        count_unreferenced_byte_string(b.size());
+        write_byte_string(b);
+    }
+
     JSONCONS_VISITOR_RETURN_TYPE visit_double(double val, 
                       semantic_tag tag,
                       const ser_context&,
@@ -1147,7 +1166,7 @@ private:
                     write_tag(0x40);
                     break;
             }
-            write_byte_string(byte_string_view(data));
+            write_unreferenced_byte_string(byte_string_view(data));
             end_value();
             JSONCONS_VISITOR_RETURN;
         }
@@ -1176,7 +1195,7 @@ private:
                                   uint16_t(), 
                                   tag);
             jsoncons::span<const uint8_t> s((const uint8_t*)(data.data()), data.size()*sizeof(uint16_t));
-            write_byte_string(byte_string_view(s));
+            write_unreferenced_byte_string(byte_string_view(s));
             end_value();
             JSONCONS_VISITOR_RETURN;
         }
@@ -1205,7 +1224,7 @@ private:
                                   uint32_t(), 
                                   tag);
             jsoncons::span<const uint8_t> s((const uint8_t*)(data.data()), data.size() * sizeof(uint32_t));
-            write_byte_string(byte_string_view(s));
+            write_unreferenced_byte_string(byte_string_view(s));
             end_value();
             JSONCONS_VISITOR_RETURN;
         }
@@ -1234,7 +1253,7 @@ private:
                                   uint64_t(), 
                                   tag);
             jsoncons::span<const uint8_t> s((const uint8_t*)(data.data()), data.size() * sizeof(uint64_t));
-            write_byte_string(byte_string_view(s));
+            write_unreferenced_byte_string(byte_string_view(s));
             end_value();
             JSONCONS_VISITOR_RETURN;
         }
@@ -1261,7 +1280,7 @@ private:
         {
             write_tag(0x48);
             jsoncons::span<const uint8_t> s((const uint8_t*)(data.data()), data.size() * sizeof(int8_t));
-            write_byte_string(byte_string_view(s));
+            write_unreferenced_byte_string(byte_string_view(s));
             end_value();
             JSONCONS_VISITOR_RETURN;
         }
@@ -1290,7 +1309,7 @@ private:
                                   int16_t(), 
                                   tag);
             jsoncons::span<const uint8_t> s((const uint8_t*)(data.data()), data.size() * sizeof(int16_t));
-            write_byte_string(byte_string_view(s));
+            write_unreferenced_byte_string(byte_string_view(s));
             end_value();
             JSONCONS_VISITOR_RETURN;
         }
@@ -1319,7 +1338,7 @@ private:
                                   int32_t(), 
                                   tag);
             jsoncons::span<const uint8_t> s((const uint8_t*)(data.data()), data.size() * sizeof(int32_t));
-            write_byte_string(byte_string_view(s));
+            write_unreferenced_byte_string(byte_string_view(s));
             end_value();
             JSONCONS_VISITOR_RETURN;
         }
@@ -1348,7 +1367,7 @@ private:
                                   int64_t(), 
                                   tag);
             jsoncons::span<const uint8_t> s((const uint8_t*)(data.data()), data.size() * sizeof(int64_t));
-            write_byte_string(byte_string_view(s));
+            write_unreferenced_byte_string(byte_string_view(s));
             end_value();
             JSONCONS_VISITOR_RETURN;
         }
@@ -1378,7 +1397,7 @@ private:
                                   half_arg, 
                                   tag);
             jsoncons::span<const uint8_t> s((const uint8_t*)(data.data()), data.size() * sizeof(uint16_t));
-            write_byte_string(byte_string_view(s));
+            write_unreferenced_byte_string(byte_string_view(s));
             end_value();
             JSONCONS_VISITOR_RETURN;
         }
@@ -1407,7 +1426,7 @@ private:
                                   float(), 
                                   tag);
             jsoncons::span<const uint8_t> s((const uint8_t*)(data.data()), data.size() * sizeof(float));
-            write_byte_string(byte_string_view(s));
+            write_unreferenced_byte_string(byte_string_view(s));
             end_value();
             JSONCONS_VISITOR_RETURN;
         }
@@ -1436,7 +1455,7 @@ private:
                                   double(), 
                                   tag);
             jsoncons::span<const uint8_t> s((const uint8_t*)(data.data()), data.size() * sizeof(double));
-            write_byte_string(byte_string_view(s));
+            write_unreferenced_byte_string(byte_string_view(s));
             end_value();
             JSONCONS_VISITOR_RETURN;
         }
